@@ -7,7 +7,7 @@ for id in "${ids[@]}"; do
   d=seeded/$id
   [ -f $d/patch.diff ] || continue
   [ -f $d/OBSOLETE ] && { echo "$id obsolete: $(cat $d/OBSOLETE)"; continue; }
-  prop=${id%-*}
+  prop=${id%%-*}
   checks="$prop"
   [ -f $d/also.txt ] && checks="$checks $(cat $d/also.txt)"
   : > $d/detect.txt
